@@ -55,6 +55,7 @@ type Contract struct {
 	Pure       bool
 	Inline     bool
 	Trusted    bool
+	NilRecv    bool // the method accepts a nil receiver
 	NoVerify   bool // contract used at call sites but body not verified here (listed as assumption)
 	Loops      map[int]*LoopContract
 	GhostVars  []*GhostVar
@@ -77,6 +78,7 @@ type ContractFile struct {
 	Lemmas    []*Lemma
 	TypeInvs  []*TypeInv
 	GlobalInvs []*GlobalInv
+	FreshOnly []string // heap keys that are only ever written on objects allocated by the writer (see `freshonly`)
 	Errors    []string
 }
 
@@ -139,7 +141,7 @@ func ParseContracts(src string) *ContractFile {
 		if k := strings.IndexAny(t, " \t"); k >= 0 {
 			word, rest = t[:k], strings.TrimSpace(t[k+1:])
 		}
-		if curLemma != nil && word != "func" && word != "lemma" && word != "typeinv" && word != "globalinv" {
+		if curLemma != nil && word != "func" && word != "lemma" && word != "typeinv" && word != "globalinv" && word != "freshonly" {
 			curLemma.Body += raw + "\n"
 			continue
 		}
@@ -165,6 +167,9 @@ func ParseContracts(src string) *ContractFile {
 			}
 			cf.Lemmas = append(cf.Lemmas, curLemma)
 			cur, curLoop = nil, nil
+			continue
+		case "freshonly":
+			cf.FreshOnly = append(cf.FreshOnly, splitProps(rest)...)
 			continue
 		case "globalinv":
 			k := strings.Index(rest, ":")
@@ -232,6 +237,8 @@ func ParseContracts(src string) *ContractFile {
 		case "pure":
 			cur.Pure = true
 			cur.HasAssigns = true
+		case "nilrecv":
+			cur.NilRecv = true
 		case "inline":
 			cur.Inline = true
 		case "trusted":
